@@ -5,6 +5,7 @@ import (
 	"flag"
 	"fmt"
 	"math/rand"
+	"os"
 	"sort"
 	"testing"
 	"time"
@@ -19,6 +20,7 @@ var (
 	c10LinTimeout = flag.Duration("c10.lintimeout", 30*time.Second, "C10: porcupine timeout per history (a timeout is inconclusive)")
 	c10Stall      = flag.Duration("c10.stall", 60*time.Second, "C10 stress: real time after which unjoined workers are inspected for a deadlock")
 	c10Confirm    = flag.Duration("c10.confirm", 5*time.Second, "C10 stress: distance between the two goroutine dumps of the deadlock test")
+	c10DumpSlow   = flag.String("c10.dumpslow", "", "C10 stress (diagnostics): write the history with the slowest linearizability check to this file")
 	c10ReplayRuns = flag.Int("c10.replayruns", 200, "C10 replay of a workload (crash / race class): how many free-running executions")
 )
 
@@ -151,6 +153,10 @@ func TestC10Stress(t *testing.T) {
 		v := judge(h, *c10LinTimeout)
 		if v.linTime > worst {
 			worst, worstOps = v.linTime, v.linOps
+			if *c10DumpSlow != "" {
+				b, _ := json.Marshal(map[string]any{"property": "C10", "part": "stress", "kind": "history", "class": "slow", "message": v.linTime.String(), "scenario": h})
+				os.WriteFile(*c10DumpSlow, b, 0o644)
+			}
 		}
 		total += v.linTime
 		if v.inconclusive != "" {
